@@ -106,6 +106,16 @@ def w_variational_long(case, led):
                           {"vmethod": "2site", "start": "poor"}, rep)
 
 
+def scaled_isometry_defect(t, left):
+    """|| G - c 1 || / c for the Gram matrix of the tensor grouped towards the centre (left: all but the last index -> last; right: first -> the rest)"""
+    m = t.reshape(-1, t.shape[-1]) if left else t.reshape(t.shape[0], -1).T
+    g = m.conj().T @ m
+    c = float(np.trace(g).real) / max(1, g.shape[0])
+    if c <= 1e-300:
+        return float("inf")
+    return float(np.abs(g - c * np.eye(g.shape[0])).max() / c)
+
+
 def w_compressed_sum(case, led):
     """compressed_sum(list, temp_m_trunc=M) with M at least the ranks of the sum: the dense sum comes back unchanged - for one, two and several summands, whatever
     truncation rule the summands carry themselves (default: a 1e-3 relative threshold) and however small some components are"""
@@ -223,6 +233,31 @@ def worker(case, led):
                                  for i in sites)
                     led.check(defect <= 1e-9, f"post:{fn}:isometry_in_advertised_direction", fn, f"isometry defect {defect:.2e}",
                               key + ("iso",), fields, rep)
+                else:
+                    # operators / density operators: canonical tensors are isometries up to a common scalar (the sweep keeps the entries O(1))
+                    sites = range(0, n - 1) if direction else range(1, n)
+                    defect = max(scaled_isometry_defect(np.asarray(c1[i].array), direction) for i in sites)
+                    led.check(defect <= 1e-9, f"post:{fn}:isometry_up_to_a_scalar_in_advertised_direction", fn, f"operator tensors: scaled isometry defect {defect:.2e}",
+                              key + ("iso-op",), fields, rep)
+            if n >= 2 and is_op:
+                # the same metadata-versus-tensors situation for operators (products and sums of operators inherit the flags of their operands)
+                for k in sorted({0, n - 1, n // 2}):
+                    x = c1.copy()
+                    t = np.array(np.asarray(x[k].array))
+                    t[:, 0] = t[:, 0] * 3.0
+                    x[k] = t
+                    vx = S.dense(x)
+                    ens, efn = ("ensure_left_canonical", "MatrixProduct.ensure_left_canonical") if direction else ("ensure_right_canonical", "MatrixProduct.ensure_right_canonical")
+                    try:
+                        y = getattr(x, ens)()
+                    except Exception as e:
+                        led.check(False, f"post:{efn}:total", efn, f"raised {type(e).__name__}: {e}", key + ("ens-op", k), fields, dict(rep, spoiled_site=k))
+                        continue
+                    sites = range(0, n - 1) if direction else range(1, n)
+                    defect = max(scaled_isometry_defect(np.asarray(y[i].array), direction) for i in sites)
+                    led.check(defect <= 1e-9 and close(S.dense(y), vx), f"post:{efn}:operator_canonical_whatever_site_was_spoiled", efn,
+                              f"site {k} of a canonical operator replaced: after {ens} the scaled isometry defect is {defect:.2e} (or the operator changed)",
+                              key + ("ens-op-iso", k), dict(fields, spoiled_site_is_end=bool(k in (0, n - 1))), dict(rep, spoiled_site=k))
             # ---- ensure_*_canonical on an object whose metadata says "canonical" but ONE site (any site, incl. the last / first) is no isometry any more
             #      (a one-site operator applied there, a tensor assigned): the result must be canonical in the advertised form and represent the same object
             if n >= 2 and not is_op:
